@@ -332,6 +332,9 @@ func c15(args []string) int {
 		out.Case(uint64(idx), true)
 		out.Count("random_histories", 1)
 	}
+	if f.Shard == 0 {
+		c15manyHeld(out)
+	}
 	out.Extra["exhaustive_history_length"] = maxLen
 	out.Finish(f)
 	return 0
@@ -727,4 +730,33 @@ func c15conc(args []string) int {
 	}
 	out.Finish(f)
 	return 0
+}
+
+// c15manyHeld: far more held lines than any 16-bit counter holds (round 16): every one of them is released by the
+// trigger, in order, before the triggering line.
+func c15manyHeld(out *evid.Out) {
+	for _, nHeld := range []int{65535, 65536, 65538, 140000} {
+		w := &evBufW{}
+		tw := &zerolog.TriggerLevelWriter{Writer: zerolog.LevelWriterAdapter{Writer: w}, ConditionalLevel: zerolog.DebugLevel, TriggerLevel: zerolog.ErrorLevel}
+		for i := 0; i < nHeld; i++ {
+			tw.WriteLevel(zerolog.DebugLevel, []byte(fmt.Sprintf("h%d\n", i)))
+		}
+		if len(w.evs) != 0 {
+			out.Violate("many-held:early", fmt.Sprintf("%d lines at the conditional level reached the destination before the trigger", len(w.evs)), map[string]interface{}{"check": "c15", "held": nHeld})
+		}
+		tw.WriteLevel(zerolog.ErrorLevel, []byte("TRIGGER\n"))
+		all := bytes.Join(w.evs, nil)
+		lines := bytes.Split(bytes.TrimSuffix(all, []byte("\n")), []byte("\n"))
+		ok := len(lines) == nHeld+1 && string(lines[nHeld]) == "TRIGGER"
+		for i := 0; ok && i < nHeld; i++ {
+			ok = string(lines[i]) == fmt.Sprintf("h%d", i)
+		}
+		if !ok {
+			out.Violate("many-held:released", fmt.Sprintf("%d held lines and the triggering line: the destination received %d lines (specified: all held lines in order, then the triggering line)", nHeld, len(lines)),
+				map[string]interface{}{"check": "c15", "held": nHeld})
+		}
+		tw.Close()
+		out.Count("many_held_lines_runs", 1)
+		out.Evaluations++
+	}
 }
